@@ -55,9 +55,13 @@ extern('ClientView.auth', params={'self': 'ClientView', '*creds': 'Args0', 'mech
        ensures=['result != None', 'result.code is not None', 'len(cast(result.code, Str)) == 3'])
 extern('ClientView.send_data', params={'self': 'ClientView', '*data': 'Args0'},
        returns='Union[Reply, List[Tuple[Str, Reply]]]', yields=True,
-       ensures=['implies(is_type(result, Reply), cast(result, Reply) != None and allocated(cast(result, Reply)))'],
-       notes='Client.send_data: returns the end-of-data Reply (SMTP) or the list of per-recipient replies (LMTP); '
-             'populated once the pipeline has been flushed',
+       ensures=['implies(is_type(result, Reply), cast(result, Reply) != None and allocated(cast(result, Reply)))',
+                'implies(is_type(result, List[Tuple[Str, Reply]]), cast(result, List[Tuple[Str, Reply]]) != None '
+                '   and forall(cast(result, List[Tuple[Str, Reply]]), lambda t: t[1] != None and allocated(t[1]) '
+                '              and implies(t[1].code is not None, len(cast(t[1].code, Str)) == 3)) '
+                '   and distinct_by(cast(result, List[Tuple[Str, Reply]]), lambda t: t[0]))'],
+       notes='Client.send_data: returns the end-of-data Reply (SMTP) or the list of per-recipient replies (LMTP, one '
+             'per accepted recipient); populated once the pipeline has been flushed',
        requires=SCOPE, raises=CL_RAISES)
 extern('ClientView.send_empty_data', params={'self': 'ClientView'}, returns='Any', yields=True, requires=SCOPE, raises=CL_RAISES)
 extern('ClientView._flush_pipeline', params={'self': 'ClientView'}, yields=True, requires=SCOPE, raises=CL_RAISES,
@@ -98,11 +102,15 @@ stage('_mailfrom', {'sender': 'Any'}, ensures=['result != None',
 stage('_rcptto', {'rcpt': 'Any'}, ensures=['result != None', 'result.code is not None', 'len(cast(result.code, Str)) == 3'])
 stage('_send_empty_data', returns='None')
 
+predicate('LMTP_ok(l)', 'l != None and forall(l, lambda t: t[1] != None and allocated(t[1]) and t[1].code is not None '
+                       '        and len(cast(t[1].code, Str)) == 3) and distinct_by(l, lambda t: t[0])')
 contract('SmtpRelayClient._send_message_data', props=['C11', 'C14'],
          params={'self': 'SmtpRelayClient', 'envelope': 'Envelope'}, returns='Any',
          requires=['envelope != None'], raises=ERR,
          # the end-of-data reply is returned only if it is not an error
-         ensures=['implies(is_type(result, Reply), not cast(result, Reply).is_error())'],
+         ensures=['implies(is_type(result, Reply), not cast(result, Reply).is_error())',
+                  # LMTP: the list of (recipient, end-of-data reply) pairs, populated, one per accepted recipient
+                  'implies(is_type(result, List[Tuple[Str, Reply]]), LMTP_ok(cast(result, List[Tuple[Str, Reply]])))'],
          modifies=['fresh', 'any(Reply).code', 'any(Reply).message'], **RC)
 
 contract('SmtpRelayClient._handshake', props=['C14'],
@@ -295,3 +303,45 @@ contract('SmtpRelayClient._run', props=['C11', 'C19'], yields=True,
                              '        and envelope != None and allocated(envelope) and envelope.recipients != None '
                              '        and len(envelope.recipients) >= 1 and distinct_by(envelope.recipients, lambda r: r))'])},
          **RC)
+
+# ---------------------------------------------------------------------------- LMTP relay client: per-recipient end-of-data
+ML = 'slimta/relay/smtp/lmtpclient.py'
+klass('LmtpRelayClient', ['SmtpRelayClient'], module=ML)
+
+contract('LmtpRelayClient._send_message_data', kind='extern', yields=True,
+         params={'self': 'LmtpRelayClient', 'envelope': 'Envelope'}, returns='List[Tuple[Str, Reply]]',
+         requires=['envelope != None'], raises=ERR, ensures=['LMTP_ok(result)'],
+         modifies=['fresh', 'any(Reply).code', 'any(Reply).message'],
+         notes='the inherited SmtpRelayClient._send_message_data (verified under that name) as seen by the LMTP '
+               'client: LmtpClient.send_data returns the per-recipient list form')
+contract('LmtpRelayClient._deliver', module=ML, props=['C11', 'C19'],
+         scope_timeouts=['self.connect_timeout', 'self.command_timeout', 'self.data_timeout'],
+         params={'self': 'LmtpRelayClient', 'result': 'AsyncResult', 'envelope': 'Envelope'},
+         requires=['result != None', 'envelope != None', 'envelope.recipients != None', 'len(envelope.recipients) >= 1',
+                   'distinct_by(envelope.recipients, lambda r: r)', 'AR_ok(result)'],
+         ensures=['AR_ok(result)', 'result.n_answers == old(result.n_answers) + 1', 'result.answered',
+                  'implies(result.is_exc, isinstance(result.value, SmtpRelayError) and cast(result.value, SmtpRelayError).reply != None)'],
+         # what is handed to the request: every recipient of the envelope has an entry, and a recipient whose OWN
+         # end-of-data reply is an error is reported as a relay error (never as delivered)
+         call_requires={'AsyncResult.set': [
+             'forall(envelope.recipients, lambda r: dict_has(rcpt_results, r))',
+             'forall(data_results, lambda t: implies(t[1].is_error(), isinstance(dict_get(rcpt_results, t[0]), SmtpRelayError)))']},
+         checks=['implies(result.is_exc, ncalls("SmtpRelayClient._rset") == 1)',
+                 # C19: a transaction with per-recipient failures is reset before the connection is reused
+                 'implies(not result.is_exc, same(result.value, rcpt_results))'],
+         raises={'ConnectionLost': ['result.n_answers <= old(result.n_answers) + 1', 'result.n_answers >= old(result.n_answers)', 'AR_ok(result)'],
+                 'BadReply': ['result.n_answers <= old(result.n_answers) + 1', 'result.n_answers >= old(result.n_answers)', 'AR_ok(result)'],
+                 'OSError': ['result.n_answers <= old(result.n_answers) + 1', 'result.n_answers >= old(result.n_answers)', 'AR_ok(result)'],
+                 'Timeout': ['result.n_answers <= old(result.n_answers) + 1', 'result.n_answers >= old(result.n_answers)', 'AR_ok(result)'],
+                 'AssertionError': ['result.n_answers <= old(result.n_answers) + 1', 'result.n_answers >= old(result.n_answers)', 'AR_ok(result)']},
+         modifies=['result.answered', 'result.n_answers', 'result.is_exc', 'result.value', 'fresh',
+                   'any(Reply).code', 'any(Reply).message'],
+         locals={'rcpt_results': 'Dict[Str, RcptRes]', 'data_results': 'List[Tuple[Str, Reply]]', 'had_errors': 'Bool'},
+         loops={0: dict(modifies=['contents(rcpt_results)', 'fresh'],
+                        inv=['rcpt_results != None and fresh(rcpt_results)',
+                             'forall(envelope.recipients, lambda r: dict_has(rcpt_results, r))',
+                             'forall(data_results, lambda t: t[1] != None and allocated(t[1]) and t[1].code is not None '
+                             '       and len(cast(t[1].code, Str)) == 3)',
+                             'distinct_by(data_results, lambda t: t[0])',
+                             'forall(range(0, _k), lambda j: implies(_seq0[j][1].is_error(), '
+                             '       isinstance(dict_get(rcpt_results, _seq0[j][0]), SmtpRelayError)))'])})
